@@ -20,7 +20,7 @@ SPEC = dict(
                  "file text contains no ESC character: click.echo strips ANSI escape sequences from non-tty output, so "
                  "such a line cannot be shown verbatim by any diff printed through click"],
     required=["dry_ok_and_applied", "multi_file_diffs", "engine:v1", "engine:v2", "dry_failed_nothing_changed",
-              "commit_on_runs", "unaffected_file_cases", "fault_cases"],
+              "commit_on_runs", "unaffected_file_cases", "fault_cases", "message_template_cases"],
     anchors=[("cli", "_print_diff"), ("v2rewrite", "diff"), ("v1rewrite", "diff"), ("rewrite", "diff_lines"),
              ("v2rewrite", "rewrite_files")],
 )
@@ -218,6 +218,13 @@ def run_case(ctx, case):
             if exp is None:
                 raise harness.Skip("no-successful-update-planned")
         args = updates.update_args(fl, date)
+    if case["pseed"] % 5 == 0:
+        # message templates take part in "the same arguments": ordinary ones, and ones str.format cannot render
+        # (unknown placeholder, stray brace) - whatever --dry says, the real run must agree
+        tmpl = R.choice(["release {new_version}", "OLD -> NEW", "bump {old_version} to {new_version_pep440}",
+                         "release {version}", "notes: {", "} stray", "{0} positional", "{new_version!z}", ""])
+        args += [R.choice(["--commit-message", "--tag-message"]), tmpl]
+        ctx.count("message_template_cases")
     if any("\x1b" in t for t in proj.files.values()):
         raise harness.Skip("ansi-escape-in-file(click strips it from non-tty output)")
     files = proj.encoded()
